@@ -285,8 +285,11 @@ func randCase(r *rand.Rand) tcase {
 		c.nf = 1
 	}
 	linky := r.Intn(4) == 0 // a quarter of the cases replace locations by symlinks now and then
-	if r.Intn(8) == 0 {
-		c.cancel = 1 + r.Intn(5)
+	if r.Intn(6) == 0 {
+		c.cancel = 1 + r.Intn(2)
+		if r.Intn(4) == 0 {
+			c.cancel = 1 + r.Intn(6)
+		}
 	}
 	n := 1 + r.Intn(6)
 	last := make([]string, c.nf) // last write per file ("" = none / deleted)
